@@ -343,7 +343,8 @@ template <class K, class V> struct MapHist
 
 // (a) every sequence of length <= L over {insert, emplace, []=, [], at=} x 3 keys + clear
 static const int MSYM = 16;
-static int map_tail() { return vf::thorough() ? 3 : 2; }
+// exceptions thrown by at() dominate the cost: quick enumerates to depth 4 for <int,int> and depth 3 for the other two
+static int map_tail(int type) { return vf::thorough() ? 3 : type == 0 ? 2 : 1; }
 template <class K, class V> static void map_seq(const int *sym, int len)
 {
     MapHist<K, V> h;
@@ -357,10 +358,10 @@ template <class K, class V> static void map_seq(const int *sym, int len)
     }
     h.finish();
 }
-template <class K, class V> static void map_enum_t(int s0, int s1)
+template <class K, class V> static void map_enum_t(int s0, int s1, int type)
 {
     int sym[8] = {s0, s1};
-    int tail = map_tail();
+    int tail = map_tail(type);
     uint64_t total = 1, n = 0;
     for (int i = 0; i < tail; i++)
         total *= MSYM;
@@ -379,14 +380,14 @@ static void map_enum_run(uint64_t idx)
 {
     int s1 = idx % MSYM, s0 = (idx / MSYM) % MSYM, t = idx / (MSYM * MSYM);
     if (t == 0)
-        map_enum_t<int, int>(s0, s1);
+        map_enum_t<int, int>(s0, s1, t);
     else if (t == 1)
-        map_enum_t<std::string, Tracked>(s0, s1);
+        map_enum_t<std::string, Tracked>(s0, s1, t);
     else
-        map_enum_t<int, std::string>(s0, s1);
+        map_enum_t<int, std::string>(s0, s1, t);
     if (idx == 37)
         vf::sample("flat_map enum: first ops %s, %s then every tail of %d ops over 16 symbols", MNAME[s0 / 3 > 4 ? 5 : s0 / 3], MNAME[s1 / 3 > 4 ? 5 : s1 / 3],
-                   map_tail());
+                   map_tail(t));
 }
 VF_SUITE(map_enumerate, map_enum_count, map_enum_run)
 
